@@ -404,10 +404,23 @@ def exec_upgrade(conn, mctx, script):
         compile(code, "<upgrade>", "exec")
     except SyntaxError:
         code = body
-    with warnings.catch_warnings():
-        warnings.simplefilter("ignore")
-        exec(compile(code, "<upgrade>", "exec"), glob)
-        glob["upgrade"]()
+    # which tables the batch blocks recreate (move-and-copy): observed from the statements sent to SQLite
+    recreated = set()
+
+    def _seen(conn_, cursor, statement, parameters, context, executemany):
+        m = re.match(r'\s*CREATE TABLE "?_alembic_tmp_([^\s"(]+)', statement)
+        if m:
+            recreated.add(m.group(1))
+
+    sa.event.listen(mctx.connection, "before_cursor_execute", _seen)
+    try:
+        with warnings.catch_warnings():
+            warnings.simplefilter("ignore")
+            exec(compile(code, "<upgrade>", "exec"), glob)
+            glob["upgrade"]()
+    finally:
+        sa.event.remove(mctx.connection, "before_cursor_execute", _seen)
+        exec_upgrade.recreated = sorted(recreated)
     return src
 
 
